@@ -179,13 +179,17 @@ type world struct {
 	mod      *actors.ScriptedModifier
 	mplans   []*actors.ModPlan
 	mseen    int
+	// further modifiers of the source-block family (label -> plans / calls seen)
+	xmods    map[string]*actors.ScriptedModifier
+	xmplans  map[string][]*actors.ModPlan
+	xmseen   map[string]int
 	endp     *smtpendp.Endpoint
 	net      *simnet.Net
 	clients  []*client
 }
 
 var rcptPool = []string{"u1@a.example", "u2@a.example", "U3@A.EXAMPLE", "u4@b.example", "u5@b.example", "x@c.example", "ü6@a.example", "u7@xn--e1aybc.example"}
-var fromPool = []string{"sender@origin.example", "", "S2@Origin.EXAMPLE", "bad address", "ö@origin.example"}
+var fromPool = []string{"sender@origin.example", "", "S2@Origin.EXAMPLE", "bad address", "ö@origin.example", "x@blocked.example", "y@elsewhere.example"}
 
 // route is the routing oracle for the fixed configuration families.
 func (w *world) route(rcpt string) []string {
@@ -234,7 +238,7 @@ func (w *world) build() error {
 	w.lmtp = s.T.Choose(st, 3) == 0
 	w.deferRj = s.T.Choose(st, 2) == 1
 	w.limitN = []int{0, 1, 2}[s.T.Choose(st, 3)]
-	w.family = 1 + s.T.Choose(st, 2)
+	w.family = 1 + s.T.Choose(st, 3)
 	faultNum := []int{0, 2, 4, 8}[s.T.Choose(st, 4)]
 	if w.a.Prop == "C16" {
 		faultNum = 8
@@ -335,8 +339,91 @@ func (w *world) build() error {
 			w.mplans = append(w.mplans, mp)
 		}
 	}
+	cfg = append(cfg, node("max_received", "3"))
 	if w.family == 1 {
 		cfg = append(cfg, node("deliver_to", "&t1"))
+	} else if w.family == 3 {
+		// source blocks: a rejected sender domain, a sender domain with a check
+		// and modifiers of its own (source scope and recipient scope), everything
+		// else through the default source; the destinations are those of family 2
+		// in every block, so that the routing oracle does not depend on the sender
+		w.xmods, w.xmplans, w.xmseen = map[string]*actors.ScriptedModifier{}, map[string][]*actors.ModPlan{}, map[string]int{}
+		newMod := func(label string) config.Node {
+			m := &actors.ScriptedModifier{Label: label}
+			m.PlanFor = func(*module.MsgMetadata) *actors.ModPlan {
+				k := w.xmseen[label]
+				w.xmseen[label]++
+				if k < len(w.xmplans[label]) {
+					return w.xmplans[label][k]
+				}
+				return &actors.ModPlan{}
+			}
+			module.RegisterInstance(m, nil)
+			delete(module.Initialized, label)
+			w.xmods[label] = m
+			for j := 0; j < 8; j++ {
+				mp := &actors.ModPlan{AddHeader: label}
+				if s.T.Bool("plan", faultNum, 48) {
+					mp.StateErr = actors.Outcome(1 + s.T.Choose("plan", 3))
+				}
+				if s.T.Bool("plan", faultNum, 48) {
+					mp.SenderErr = actors.Outcome(1 + s.T.Choose("plan", 3))
+				}
+				if s.T.Bool("plan", faultNum, 48) {
+					mp.BodyErr = actors.Outcome(1 + s.T.Choose("plan", 3))
+				}
+				if s.T.Bool("plan", faultNum, 24) {
+					r := rcptPool[s.T.Choose("plan", len(rcptPool))]
+					o := actors.Outcome(1 + s.T.Choose("plan", 3))
+					mp.RcptErr = map[string]actors.Outcome{r: o, cleanAddr(r): o}
+				}
+				w.xmplans[label] = append(w.xmplans[label], mp)
+			}
+			return block("modify", nil, node("&"+label))
+		}
+		dests := func(withRcptMod bool) []config.Node {
+			a := []config.Node{node("deliver_to", "&t1")}
+			b := []config.Node{node("deliver_to", "&t2"), node("deliver_to", "&t3")}
+			if withRcptMod {
+				a = append([]config.Node{newMod("modA")}, a...)
+				b = append([]config.Node{newMod("modB")}, b...)
+			}
+			return []config.Node{
+				block("destination", []string{"a.example"}, a...),
+				block("destination", []string{"b.example"}, b...),
+				block("destination", []string{"xn--e1aybc.example"}, node("deliver_to", "&t1"), node("deliver_to", "&t2")),
+				block("default_destination", nil, node("reject", "550", "5.1.1", "no such recipient here")),
+			}
+		}
+		var src []config.Node
+		{
+			n := "chkS"
+			c := &actors.ScriptedCheck{Label: n}
+			c.PlanFor = func(*module.MsgMetadata) *actors.CheckPlan {
+				k := w.cseen[n]
+				w.cseen[n]++
+				if k < len(w.cplans[n]) {
+					return w.cplans[n][k]
+				}
+				return &actors.CheckPlan{}
+			}
+			w.checks = append(w.checks, c)
+			module.RegisterInstance(c, nil)
+			delete(module.Initialized, n)
+			for j := 0; j < 8; j++ {
+				w.cplans[n] = append(w.cplans[n], genCheckPlan(s.T, faultNum))
+			}
+			src = append(src, block("check", nil, node("&"+n)))
+		}
+		if s.T.Choose(st, 2) == 0 {
+			src = append(src, newMod("modS"))
+		}
+		src = append(src, dests(s.T.Choose(st, 2) == 0)...)
+		cfg = append(cfg,
+			block("source", []string{"blocked.example"}, node("reject", "521", "5.7.1", "senders of this domain are not welcome")),
+			block("source", []string{"origin.example"}, src...),
+			block("default_source", nil, dests(false)...),
+		)
 	} else {
 		cfg = append(cfg,
 			block("destination", []string{"a.example"}, node("deliver_to", "&t1")),
@@ -486,6 +573,13 @@ func (w *world) genClients() {
 			}
 			if s.T.Choose(st, 8) == 0 {
 				body += "TLS-Required: No\r\n"
+			}
+			if s.T.Choose(st, 12) == 0 {
+				// more Received fields than max_received: refused as a forwarding
+				// loop after the body was read - one more failure before the commit step
+				for k := 0; k < 4; k++ {
+					body = fmt.Sprintf("Received: from hop%d.example by hop%d.example; Sat, 1 Jan 2000 00:00:0%d +0000\r\n", k, k+1, k) + body
+				}
 			}
 			body += "\r\nbody of " + tx.Marker + "\r\n.dot line\r\n"
 			tx.Payload = []byte(body)
